@@ -83,6 +83,8 @@ fn expr(v: &Value) -> Expression {
         "gt" => Expression::Greater(b("a"), b("b")),
         "le" => Expression::LessOrEqual(b("a"), b("b")),
         "ge" => Expression::GreaterOrEqual(b("a"), b("b")),
+        "neg" => Expression::UnaryMinus(b("a")),
+        "pos" => Expression::UnaryPlus(b("a")),
         "add" => Expression::Add(b("a"), b("b")),
         "sub" => Expression::Subtract(b("a"), b("b")),
         "mul" => Expression::Multiply(b("a"), b("b")),
@@ -257,7 +259,7 @@ fn rand_expr(rng: &mut Rng, depth: usize) -> Value {
         6 => json!({"op":"and","a": sub(rng),"b": sub(rng)}),
         7 => json!({"op":"or","a": sub(rng),"b": sub(rng)}),
         8 => json!({"op": *rng.pick(&["ne", "gt", "le", "ge", "sameterm"]),"a": sub(rng),"b": sub(rng)}),
-        9 => json!({"op": *rng.pick(&["add", "sub", "mul"]),"a": sub(rng),"b": sub(rng)}),
+        9 => if rng.chance(1, 4) { json!({"op": *rng.pick(&["neg", "pos"]),"a": sub(rng)}) } else { json!({"op": *rng.pick(&["add", "sub", "mul"]),"a": sub(rng),"b": sub(rng)}) },
         10 => json!({"op":"if","c": sub(rng),"a": sub(rng),"b": sub(rng)}),
         11 => json!({"op":"coalesce","args": (0..1 + rng.below(3)).map(|_| sub(rng)).collect::<Vec<_>>()}),
         12 | 13 => json!({"op": *rng.pick(&["isblank", "isliteral", "isnumeric", "str", "lang", "datatype"]),"a": sub(rng)}),
@@ -521,6 +523,17 @@ pub fn main(args: &[String]) {
                     }
                 }
             }
+        }
+        // unary minus / plus on every constant and on integers at the edges of the machine types (the lexical form is negated)
+        for a in &consts {
+            apps.push(json!({"op":"neg","a":c(a)}));
+            apps.push(json!({"op":"pos","a":c(a)}));
+        }
+        for l in ["9223372036854775807", "-9223372036854775808", "9223372036854775808", "-9223372036854775809", "18446744073709551615", "-18446744073709551616", "2147483648", "-2147483648", "0", "7"] {
+            let t = term_json(&lit_dt(l, &format!("{XSD}integer")));
+            apps.push(json!({"op":"neg","a":c(&t)}));
+            apps.push(json!({"op":"neg","a":{"op":"neg","a":c(&t)}}));
+            apps.push(json!({"op":"pos","a":c(&t)}));
         }
         for (i, e) in apps.into_iter().enumerate() {
             if (i + seed as usize) % stride != 0 {
